@@ -30,7 +30,7 @@ type c14Params struct {
 
 func TestC14(t *testing.T) {
 	c := rt.Get()
-	n := c.N(12000, 200000)
+	n := c.N(12000, 400000)
 	asB := []uint32{1, 23456, 65535, 65536, 4200000000, 4294967295}
 	for i := 0; i < n; i++ {
 		if !c.Mine("wire", i) {
